@@ -524,6 +524,8 @@ P("merge_chain_literal_suffix_right", lambda t: t.df2.merge(t.df2.rename(columns
 P("merge_chain_three", lambda t: t.df[["a", "u"]].merge(t.df2[["a", "w"]], on="a").merge(t.df4[["a", "f"]], on="a")[["u", "f"]], order_free=True, index_free=True)
 P("merge_key_suffixed_proj", lambda t: t.df.merge(t.df2, left_on="f", right_on="w")[["a_y", "u_x"]], order_free=True, index_free=True)
 P("merge_shared_three_consumers", lambda t: (lambda m: m.b_x.sum() + m.w.max() + m.u_y.min())(t.df.merge(t.df2, on="a")))
+P("sort_ignore_index", lambda t: t.df.sort_values("u", ascending=False, ignore_index=True), tags={"sort"}, index_free=True)
+P("sort_ignore_index_two", lambda t: t.df.sort_values(["a", "u"], ignore_index=True)[["a", "u"]], tags={"sort"}, index_free=True)
 # --- hash shuffles (layout is a function of the key values only)
 P("shuffle_col", lambda t: t.df.shuffle("a") if t.lazy else t.df, order_free=True, tags={"shuffle"})
 P("shuffle_more", lambda t: t.df.shuffle("a", npartitions=7) if t.lazy else t.df, order_free=True, tags={"shuffle"})
